@@ -15,6 +15,9 @@ REGISTRY = {
     "C17": ("harness.checks.assembly_check", "C17"),
     "C01": ("harness.checks.c01_check", "C01"),
     "C13": ("harness.checks.c13_check", "C13"),
+    "C05": ("harness.checks.rules_check", "C05"),
+    "C15": ("harness.checks.schemes_check", "C15"),
+    "C14": ("harness.checks.slobo_check", "C14"),
     "C04": ("harness.checks.pair_checks", "C04"),
     "C11": ("harness.checks.pair_checks", "C11"),
     "C12": ("harness.checks.pair_checks", "C12"),
